@@ -1,5 +1,241 @@
 import Sentinel.Drv.Common
-/-! Driver for C20 (stub: replaced by the property's real driver) -/
+import Sentinel.Model.Outlier
+/-! Driver for C20: `model` = code-shaped outlier slot over per-node breakers; `oracle` = judges an
+implementation trace (filter ⊆ rejecting, |filter| ≤ ⌊n·p⌋ exactly, |filter| = min cap #rejecting,
+half-open set exact, a node that succeeded since it was scheduled is not recycled). -/
 namespace Sentinel.Drv.C20
-def run (_mode : String) : IO Unit := IO.eprintln "C20: driver not implemented"
+open Sentinel.Outlier Sentinel.Drv
+
+/-- a loaded rule as written in the `load` op (kept to recognise an identical breaker part on reload) -/
+structure RuleText where
+  cbPart : List String
+  m : Nat            -- MaxEjectionPercent = m / 2^E
+  E : Nat
+
+structure St where
+  now : Nat := 1900000000000   -- every case starts here (the Go harness resets its virtual clock to it)
+  res : List (String × Res × RuleText) := []
+
+/-- binary64 bit pattern of a finite non-negative float ↦ `(m, E)` with value `m / 2^E` -/
+def decodeF (bits : Nat) : Option (Nat × Nat) :=
+  let sign := bits / 2 ^ 63
+  let e := (bits / 2 ^ 52) % 2048
+  let f := bits % 2 ^ 52
+  if sign ≠ 0 ∨ e = 2047 then none
+  else if e = 0 then some (f, 1074)
+  else if e ≤ 1075 then some (2 ^ 52 + f, 1075 - e)
+  else some ((2 ^ 52 + f) * 2 ^ (e - 1075), 0)
+
+def parseF? (s : String) : Option (Nat × Nat) :=
+  if s.startsWith "f:" then (parseHex? (s.drop 2).toString).bind decodeF else none
+
+def stName : CbState → String
+  | .closed => "C" | .halfOpen => "H" | .opened => "O"
+
+def sortS (xs : List String) : List String := (xs.toArray.qsort (· < ·)).toList
+
+def showStates (ns : Nodes) : String :=
+  showList (sortS (ns.map fun p => p.1 ++ ":" ++ stName p.2.state))
+
+def sortNodes (ns : Nodes) : Nodes := (ns.toArray.qsort (fun a b => a.1 < b.1)).toList
+
+def getRes (s : St) (name : String) : Option (Res × RuleText) := (s.res.find? (·.1 == name)).map (·.2)
+
+def setRes (s : St) (name : String) (r : Res) (t : RuleText) : St :=
+  if s.res.any (·.1 == name) then { s with res := s.res.map fun p => if p.1 == name then (name, r, t) else p }
+  else { s with res := s.res ++ [(name, r, t)] }
+
+/-- `Float64Equals` precision -/
+def precision : Float := 0.00000001
+
+def mkCbRule (strategy retry minReq interval bc maxRt probe : Nat) (thr : Float) : CbRule :=
+  let n := if bc = 0 ∨ interval % bc ≠ 0 then 1 else bc
+  { retryTimeoutMs := retry, probeNum := probe, minReq := minReq, n := n, L := interval / n,
+    isBad := fun rt err => if strategy = 0 then decide (maxRt < rt) else err,
+    trip := fun bad total =>
+      if strategy = 2 then decide (thr.toUInt64.toNat ≤ bad)
+      else
+        let ratio := bad.toFloat / total.toFloat
+        ratio > thr || (ratio - thr).abs < precision }
+
+/-- what a request (`Entry`) observes, in canonical form; `raw` = print the chosen filter set even when
+    the choice depends on the iteration order -/
+def showCheck (n : Nat) (out : CheckOut) (post : Nodes) : String :=
+  let rej := sortS out.outliers
+  let f := if out.filters.length < rej.length then "*" else showList (sortS out.filters)
+  s!"n={n} nf={out.filters.length} rej={showList rej} filter={f} halfopen={showList (sortS out.halfs)} post={showStates post}"
+
+def modelStep (s : St) (ts : List String) : St × Option String :=
+  match ts with
+  | ["load", name, strat, retry, minReq, interval, bc, maxRt, thr, probe, maxEj, active] =>
+    match strat.toNat?, retry.toNat?, minReq.toNat?, interval.toNat?, bc.toNat?, maxRt.toNat?, parseFbits? thr,
+          probe.toNat?, parseF? maxEj, active.toNat? with
+    | some strat, some retry, some minReq, some interval, some bc, some maxRt, some thrF, some probe, some (m, E), some act =>
+      let cbPart := [strat.repr, retry.repr, minReq.repr, interval.repr, bc.repr, maxRt.repr, thr, probe.repr]
+      -- IsValidRule of both packages
+      if strat > 2 ∨ interval = 0 ∨ retry = 0 ∨ thrF < 0.0 ∨ thrF.isNaN ∨ (strat ≤ 1 ∧ thrF > 1.0) ∨ m > 2 ^ E then (s, some "bad-op") else
+      let rule : Rule := { cb := mkCbRule strat retry minReq interval bc maxRt probe thrF, active := act ≠ 0,
+                           cap := fun n => capF64 n m E }
+      match getRes s name with
+      | none => (setRes s name { rule := rule } { cbPart := cbPart, m := m, E := E }, some "ok")
+      | some (r, t) =>
+        -- an equal breaker rule keeps every node breaker (`BuildResourceCircuitBreaker` reuses equal ones)
+        if t.cbPart = cbPart then (setRes s name { r with rule := rule } { cbPart := cbPart, m := m, E := E }, some "ok")
+        else (s, some "bad-op")
+    | _, _, _, _, _, _, _, _, _, _ => (s, some "bad-op")
+  | ["clock", t] => match t.toNat? with
+    | some t => if s.now ≤ t then ({ s with now := t }, none) else (s, some "bad-op")
+    | none => (s, some "bad-op")
+  | ["call", name, addr, oc, rt] => match getRes s name, rt.toNat? with
+    | some (r, t), some rt =>
+      if addr = "" ∨ (oc ≠ "ok" ∧ oc ≠ "err") then (s, some "bad-op") else
+      let (r1, out) := r.check s.now (sortNodes r.nodes)
+      let now := s.now + rt
+      let r2 := r1.completed now addr rt (oc == "err")
+      (setRes { s with now := now } name r2 t, some (showCheck r.nodes.length out r1.nodes ++ s!" end={showStates r2.nodes}"))
+    | _, _ => (s, some "bad-op")
+  | ["probe", name] => match getRes s name with
+    | some (r, t) =>
+      let (r1, out) := r.check s.now (sortNodes r.nodes)
+      (setRes s name r1 t, some (showCheck r.nodes.length out r1.nodes ++ s!" end={showStates r1.nodes}"))
+    | none => (s, some "bad-op")
+  | ["recycle", name, addr] => match getRes s name with
+    | some (r, t) =>
+      let r1 := r.recycle addr
+      (setRes s name r1 t, some s!"n={r1.nodes.length} nodes={showStates r1.nodes}")
+    | none => (s, some "bad-op")
+  | ["retry", name, addr, rt] => match getRes s name, rt.toNat? with
+    | some (r, t), some rt =>
+      let r1 := r.retryOk s.now addr rt
+      (setRes s name r1 t, some s!"nodes={showStates r1.nodes}")
+    | _, _ => (s, some "bad-op")
+  | ["cap", n, p] => match n.toNat?, parseF? p with
+    | some n, some (m, E) => (s, some (capF64 n m E).repr)
+    | _, _ => (s, some "bad-op")
+  | ["capdec", n, k] => match n.toNat?, k.toNat? with
+    | some n, some k =>
+      let p := k.toFloat / 100.0
+      match decodeF p.toBits.toNat with
+      | some (m, E) => (s, some s!"cap={capF64 n m E} p={fbits p}")
+      | none => (s, some "bad-op")
+    | _, _ => (s, some "bad-op")
+  | _ => (s, some "bad-op")
+
+/-! ## oracle
+
+The oracle judges the **implementation's own trace**: the node count, the set of nodes whose real breaker
+answers `TryPass = false` (`rej=`, asked by the harness right after the check), the real breaker states
+after the check (`post=`), against the reported filter / half-open lists.  From the op history it only
+takes the rule (`MaxEjectionPercent` as the exact rational `m / 2^E`, `EnableActiveRecovery`) and the
+recycler bookkeeping (`stSchedule` / `stRecover` / `stRecycle` of the model, fed with the observed outliers). -/
+
+structure ORes where
+  m : Nat
+  E : Nat
+  active : Bool
+  status : Status := []
+
+structure OSt where
+  res : List (String × ORes) := []
+
+def oGet (s : OSt) (name : String) : Option ORes := (s.res.find? (·.1 == name)).map (·.2)
+
+def oSet (s : OSt) (name : String) (r : ORes) : OSt :=
+  if s.res.any (·.1 == name) then { s with res := s.res.map fun p => if p.1 == name then (name, r) else p }
+  else { s with res := s.res ++ [(name, r)] }
+
+def field (res : String) (key : String) : Option String :=
+  ((res.splitOn " ").find? (·.startsWith (key ++ "="))).map fun f => (f.drop (key.length + 1)).toString
+
+def parseList (s : String) : Option (List String) :=
+  if s.startsWith "[" && s.endsWith "]" then
+    let inner := ((s.drop 1).dropEnd 1).toString
+    some (if inner.isEmpty then [] else inner.splitOn ",")
+  else none
+
+def subset (xs ys : List String) : Bool := xs.all fun x => ys.contains x
+
+/-- judge one observed request; returns the verdict and the observed rejecting set -/
+def judgeCheck (r : ORes) (res : String) : String × List String :=
+  match (field res "n").bind String.toNat?, (field res "nf").bind String.toNat?, field res "filter",
+        (field res "halfopen").bind parseList, (field res "rej").bind parseList, (field res "post").bind parseList with
+  | some n, some nf, some fl, some halfs, some rej, some post =>
+    let flist := if fl = "*" then some none else (parseList fl).map some
+    match flist with
+    | none => ("bad unparsable-filter", rej)
+    | some fo =>
+      let subOk := match fo with
+        | none => true      -- the harness printed `*`: it found the chosen set to be a proper subset of `rej`
+        | some l => subset l rej && l.length == nf && l.eraseDups.length == l.length
+      -- passively probed: passive mode, let through (not rejecting), half-open after the check
+      let halfExp := if r.active then [] else
+        sortS (post.filterMap fun x => match x.splitOn ":" with
+          | [a, "H"] => if rej.contains a then none else some a
+          | _ => none)
+      let capC := capF64 n r.m r.E
+      let floorE := capExact n r.m r.E
+      if post.length ≠ n then ("bad node-count", rej)
+      else if !subOk then ("bad filter-not-subset-of-rejecting", rej)
+      else if sortS halfs ≠ halfExp then ("bad halfopen-set", rej)
+      else if nf > floorE + 1 ∨ nf > capC then ("bad filter-exceeds-floor", rej)
+      else if nf ≠ min capC rej.length then ("bad filter-size-not-min-cap-rejecting", rej)
+      else if nf ≤ floorE then ("ok", rej)
+      else ("known:cap-float-roundup", rej)
+  | _, _, _, _, _, _ => ("bad unparsable", [])
+
+def oracleStep (s : OSt) (ts : List String) (line : String) : OSt × Option String :=
+  let res := (resPart line).getD ""
+  match ts with
+  | ["load", name, _, _, _, _, _, _, _, _, maxEj, active] => match parseF? maxEj, active.toNat? with
+    | some (m, E), some act =>
+      if res ≠ "ok" then (s, some "?") else
+      let st := ((oGet s name).map (·.status)).getD []
+      (oSet s name { m := m, E := E, active := act ≠ 0, status := st }, some "?")
+    | _, _ => (s, some "bad-op")
+  | ["clock", t] => if t.toNat?.isSome then (s, none) else (s, some "bad-op")
+  | ["call", name, addr, oc, _] => match oGet s name with
+    | some r =>
+      let (v, rej) := judgeCheck r res
+      let st := if rej.isEmpty then r.status else stSchedule r.status rej
+      let st := if oc == "ok" then stRecover st addr else st
+      (oSet s name { r with status := st }, some v)
+    | none => (s, some "bad-op")
+  | ["probe", name] => match oGet s name with
+    | some r =>
+      let (v, rej) := judgeCheck r res
+      (oSet s name { r with status := if rej.isEmpty then r.status else stSchedule r.status rej }, some v)
+    | none => (s, some "bad-op")
+  | ["retry", name, addr, _] => match oGet s name with
+    | some r => (oSet s name { r with status := stRecover r.status addr }, some "?")
+    | none => (s, some "bad-op")
+  | ["recycle", name, addr] => match oGet s name with
+    | some r =>
+      -- a node marked recovered (successful completion since it was scheduled) must survive the timer
+      let safe := r.status.any fun p => p.1 == addr && p.2
+      let s' := oSet s name { r with status := (stRecycle r.status addr).1 }
+      match (field res "nodes").bind parseList with
+      | some ns =>
+        let present := ns.any fun x => (x.splitOn ":").head? == some addr
+        if safe then (s', some (if present then "ok" else "bad recycled-after-success")) else (s', some "?")
+      | none => (s', some "bad unparsable")
+    | none => (s, some "bad-op")
+  | ["cap", n, p] => match n.toNat?, parseF? p, res.toNat? with
+    | some n, some (m, E), some c =>
+      let fl := capExact n m E
+      (s, some (if c ≤ fl then "ok" else if c = fl + 1 then "known:cap-float-roundup" else "bad cap-exceeds-floor"))
+    | _, _, _ => (s, some "bad unparsable")
+  | ["capdec", n, k] => match n.toNat?, k.toNat?, (field res "cap").bind String.toNat? with
+    | some n, some k, some c =>
+      -- decimal percentage k/100: the code's cap is ⌊n·k/100⌋ or one lower, never higher
+      let fl := n * k / 100
+      (s, some (if c ≤ fl ∧ fl ≤ c + 1 then "ok" else "bad decimal-cap"))
+    | _, _, _ => (s, some "bad unparsable")
+  | _ => (s, some "bad-op")
+
+def run (mode : String) : IO Unit :=
+  match mode with
+  | "model" => loop ({} : St) fun s ts _ => modelStep s ts
+  | "oracle" => loop ({} : OSt) fun s ts line => oracleStep s ts line
+  | _ => IO.eprintln s!"C20: unknown mode {mode}"
+
 end Sentinel.Drv.C20
